@@ -375,3 +375,6 @@ RULES = [
 from .etype import witness_rule
 RULES.append({"id": "C05.W", "fn": witness_rule(['W5GuardPrivate']), "quick": [], "thorough": [], "no_db": True})
 DOC["C05.W"] = 'E-TYPE witness W5: the lifecycle guard and the port set cannot be named by users (E0603), so they cannot be forgotten/leaked from outside the crate'
+from .positive import control
+RULES.append({"id": "C05.P", "fn": control('forget'), "quick": ["pos"], "thorough": ["pos"]})
+DOC["C05.P"] = 'positive control: planted mem::forget(guard) in witness/positive must be reported by the leak detector of C05.R2'
